@@ -12,7 +12,10 @@ Inductive c05case :=
 (* write faults while other calls are in flight (TestC05Fault): mode 0 = the faulty call's Write is held by the
    transport and fails when its context ends, 1 = two such calls, 2 = the Write fails at once; k calls started after
    it are in flight, then m new calls; the peer answers every request with token + 1 *)
-| C05FaultM (mode k m : Z) (first_ids_sorted : list Z) (pairs : list (Z * Z)).
+| C05FaultM (mode k m : Z) (first_ids_sorted : list Z) (pairs : list (Z * Z))
+(* a slow reader: what was sent to call A / what A received when it finally drained everything (-1 = clean end,
+   -2 = RecvMsg still pending, -3 = an error), the same for a call B that kept up *)
+| C05Order (sentA gotA sentB gotB : list Z).
 
 Fixpoint increasing (l : list Z) : bool :=
   match l with x :: ((y :: _) as t) => (x <? y) && increasing t | _ => true end.
@@ -76,6 +79,9 @@ Definition check_c05 (c : c05case) : list nat :=
        end) ++
       (if increasing ids && (Z.of_nat (length ids) =? k + m) && forallb (fun i => 0 <? i) ids then [] else [2%nat]) ++
       (if forallb (fun p => snd p =? fst p + 1) pairs then [] else [9%nat])
+  | C05Order sa ga sb gb =>
+      (* position by position: per-call order preserved, nothing lost, nothing duplicated, the end last *)
+      if list_eqb Z.eqb sa ga && list_eqb Z.eqb sb gb then [] else [4%nat]
   end.
 
 Fixpoint find_bad_from (i : nat) (cs : list c05case) : list (nat * list nat) :=
